@@ -3,7 +3,9 @@
 
    One action per critical section of pkg/server/pm_server.go:
      SpawnStart(s)     a spawn loop starts a child process (cmd.Start)            -> the child is LIVE
-     MasterAdd(s)      maintainChildState receives the registration (addChan)     -> childs, refCount
+     MasterRecvAdd(s)  maintainChildState RECEIVES the registration (unbuffered addChan: the rendezvous releases the
+                       spawn loop, which may start its next child at once)        -> got
+     MasterAdd         ... and processes it (no other master step in between)     -> childs, refCount
      WorkerAccept(p,r) a live idle worker accepts request r and reports BUSY      -> pipe
      WorkerDone(p)     the worker finishes and reports IDLE                       -> pipe
      WorkerTimeout(p)  the request outlives --timeout: reports STOPPED and exits  -> pipe, live, waits
@@ -35,36 +37,47 @@ VARIABLES live,       \* processes started and not exited (ground truth)
           waits,      \* exited registered pids whose exit has not been received yet
           armed,      \* pids whose Wait goroutine is running (registered)
           wst,        \* worker's own state: function pid -> "idle" | "busy" | "hung"
-          nextPid, reqs, faults
-vars == <<live, childs, refCount, loops, pipe, waits, armed, wst, nextPid, reqs, faults>>
+          nextPid, reqs, faults,
+          got         \* the registration the master has received and not yet processed (0 = none)
+vars == <<live, childs, refCount, loops, pipe, waits, armed, wst, nextPid, reqs, faults, got>>
 
 Loop(n) == [left |-> n, pending |-> 0]
 Init == /\ live = {} /\ childs = <<>> /\ pipe = <<>> /\ waits = {} /\ armed = {} /\ wst = <<>>
         /\ refCount = IF Design = "intended" THEN InitProcs ELSE 0
         /\ loops = << Loop(InitProcs) >>
-        /\ nextPid = 1 /\ reqs = 0 /\ faults = 0
+        /\ nextPid = 1 /\ reqs = 0 /\ faults = 0 /\ got = 0
 
 Registered == DOMAIN childs
 Exit(p) == /\ live' = live \ {p}
            /\ waits' = IF p \in armed THEN waits \cup {p} ELSE waits
 
-SpawnStart(s) ==
-  /\ loops[s].left > 0 /\ loops[s].pending = 0 /\ nextPid <= MaxPid
+\* (the actions are parameterised by the value of `loops` they start from, so that the trace spec can compose
+\*  the unlogged receive step with the logged step that follows it)
+AfterRecv(s) == [loops EXCEPT ![s].pending = 0, ![s].left = @ - 1]
+SpawnStartL(L, s) ==
+  /\ L[s].left > 0 /\ L[s].pending = 0 /\ nextPid <= MaxPid
   /\ live' = live \cup {nextPid}
   /\ wst' = [p \in DOMAIN wst \cup {nextPid} |-> IF p = nextPid THEN "idle" ELSE wst[p]]
-  /\ loops' = [loops EXCEPT ![s].pending = nextPid]
+  /\ loops' = [L EXCEPT ![s].pending = nextPid]
   /\ nextPid' = nextPid + 1
   /\ UNCHANGED <<childs, refCount, pipe, waits, armed, reqs, faults>>
+SpawnStart(s) == SpawnStartL(loops, s) /\ UNCHANGED got
 
-MasterAdd(s) ==
-  /\ loops[s].pending # 0
-  /\ LET p == loops[s].pending IN
-     /\ childs' = [q \in Registered \cup {p} |-> IF q = p THEN "IDLE" ELSE childs[q]]
-     /\ refCount' = IF Design = "intended" THEN refCount ELSE Cardinality(Registered \cup {p})
-     /\ loops' = [loops EXCEPT ![s].pending = 0, ![s].left = @ - 1]
-     /\ armed' = armed \cup {p}
-     /\ waits' = IF p \notin live THEN waits \cup {p} ELSE waits       \* it died before it was registered
+MasterRecvAdd(s) ==
+  /\ got = 0 /\ loops[s].pending # 0
+  /\ got' = loops[s].pending
+  /\ loops' = AfterRecv(s)
+  /\ UNCHANGED <<live, childs, refCount, pipe, waits, armed, wst, nextPid, reqs, faults>>
+AddEffect(p) ==
+  /\ childs' = [q \in Registered \cup {p} |-> IF q = p THEN "IDLE" ELSE childs[q]]
+  /\ refCount' = IF Design = "intended" THEN refCount ELSE Cardinality(Registered \cup {p})
+  /\ armed' = armed \cup {p}
+  /\ waits' = IF p \notin live THEN waits \cup {p} ELSE waits       \* it died before it was registered
   /\ UNCHANGED <<live, pipe, wst, nextPid, reqs, faults>>
+MasterAdd == got # 0 /\ AddEffect(got) /\ got' = 0 /\ UNCHANGED loops
+\* compositions (receive immediately followed by the next step) - used by the history module and the trace spec
+RecvThenAdd(s) == got = 0 /\ loops[s].pending # 0 /\ AddEffect(loops[s].pending) /\ loops' = AfterRecv(s) /\ got' = 0
+RecvThenStart(s) == got = 0 /\ loops[s].pending # 0 /\ SpawnStartL(AfterRecv(s), s) /\ got' = loops[s].pending
 
 WorkerAccept(p) ==
   /\ p \in live /\ wst[p] = "idle" /\ reqs < NReq
@@ -74,27 +87,27 @@ WorkerAccept(p) ==
        /\ faults' = IF kind = "hung" THEN faults + 1 ELSE faults
   /\ pipe' = Append(pipe, [pid |-> p, st |-> "BUSY"])
   /\ reqs' = reqs + 1
-  /\ UNCHANGED <<live, childs, refCount, loops, waits, armed, nextPid>>
+  /\ UNCHANGED <<live, childs, refCount, loops, waits, armed, nextPid, got>>
 WorkerDone(p) ==
   /\ p \in live /\ wst[p] = "busy"
   /\ wst' = [wst EXCEPT ![p] = "idle"]
   /\ pipe' = Append(pipe, [pid |-> p, st |-> "IDLE"])
-  /\ UNCHANGED <<live, childs, refCount, loops, waits, armed, nextPid, reqs, faults>>
+  /\ UNCHANGED <<live, childs, refCount, loops, waits, armed, nextPid, reqs, faults, got>>
 WorkerTimeout(p) ==
   /\ p \in live /\ wst[p] = "hung"
   /\ pipe' = Append(pipe, [pid |-> p, st |-> "STOPPED"])
   /\ Exit(p)
-  /\ UNCHANGED <<childs, refCount, loops, armed, wst, nextPid, reqs, faults>>
+  /\ UNCHANGED <<childs, refCount, loops, armed, wst, nextPid, reqs, faults, got>>
 WorkerCrash(p) ==
   /\ p \in live /\ faults < NFault
   /\ faults' = faults + 1
   /\ Exit(p)
-  /\ UNCHANGED <<childs, refCount, loops, pipe, armed, wst, nextPid, reqs>>
+  /\ UNCHANGED <<childs, refCount, loops, pipe, armed, wst, nextPid, reqs, got>>
 
 HasIdle(c) == \E q \in DOMAIN c : c[q] = "IDLE"
 Min(a, b) == IF a < b THEN a ELSE b
 MasterUpdate ==
-  /\ pipe # <<>>
+  /\ got = 0 /\ pipe # <<>>
   /\ LET u == Head(pipe)
          c2 == IF u.pid \in Registered THEN [childs EXCEPT ![u.pid] = u.st] ELSE childs
      IN /\ childs' = c2
@@ -104,18 +117,18 @@ MasterUpdate ==
                     add == final - refCount
                 IN /\ refCount' = final
                    /\ loops' = IF add > 0 THEN Append(loops, Loop(add)) ELSE loops
-  /\ UNCHANGED <<live, waits, armed, wst, nextPid, reqs, faults>>
+  /\ UNCHANGED <<live, waits, armed, wst, nextPid, reqs, faults, got>>
 MasterDel(p) ==
-  /\ p \in waits
+  /\ got = 0 /\ p \in waits
   /\ waits' = waits \ {p}
   /\ childs' = [q \in Registered \ {p} |-> childs[q]]
   /\ LET rc == refCount - 1 IN
      IF rc < InitProcs THEN /\ refCount' = InitProcs
                             /\ loops' = Append(loops, Loop(InitProcs - rc))
      ELSE refCount' = rc /\ UNCHANGED loops
-  /\ UNCHANGED <<live, pipe, armed, wst, nextPid, reqs, faults>>
+  /\ UNCHANGED <<live, pipe, armed, wst, nextPid, reqs, faults, got>>
 
-MasterStep == (\E s \in 1..Len(loops) : MasterAdd(s)) \/ MasterUpdate \/ (\E p \in Pids : MasterDel(p))
+MasterStep == (\E s \in 1..Len(loops) : MasterRecvAdd(s)) \/ MasterAdd \/ MasterUpdate \/ (\E p \in Pids : MasterDel(p))
 SpawnStep == \E s \in 1..Len(loops) : SpawnStart(s)
 WorkerStep == \E p \in Pids : WorkerAccept(p) \/ WorkerDone(p) \/ WorkerTimeout(p) \/ WorkerCrash(p)
 Next == MasterStep \/ SpawnStep \/ WorkerStep
@@ -125,8 +138,8 @@ Spec == Init /\ [][Next]_vars /\ WF_vars(MasterStep) /\ WF_vars(SpawnStep)
 (* ---- properties ---- *)
 Bound == Cardinality(live) <= MaxProcs
 Reserved == LET RECURSIVE Sum(_) Sum(k) == IF k = 0 THEN 0 ELSE loops[k].left + Sum(k - 1) IN Sum(Len(loops))
-\* intended bookkeeping: refCount = registered + still to be registered
-Bookkeeping == Design = "intended" => refCount = Cardinality(Registered) + Reserved
+\* intended bookkeeping: refCount = registered + still to be registered (+ the registration being processed)
+Bookkeeping == Design = "intended" => refCount = Cardinality(Registered) + Reserved + (IF got # 0 THEN 1 ELSE 0)
 RefCountBounded == Design = "intended" => (refCount <= MaxProcs /\ refCount >= 0)
 LiveAccounted == Design = "intended" => Cardinality(live) <= refCount
 TypeOK == /\ live \subseteq Pids /\ waits \subseteq Pids /\ \A q \in Registered : childs[q] \in States
